@@ -98,20 +98,38 @@ def polyline_cases(draw, degenerate=False):
     return {"U": U, "P": P, "qkind": qkind, "q": q, "t0": draw(st.integers(1, 31)), "pscale": scale, "gscale": g,
             "eps": draw(st.sampled_from([F(1, 2048), F(1, 4096), F(1, 1024), F(3, 8192)])),
             "off": draw(st.sampled_from([F(0), F(0), F(1, 4096), F(-1, 2048)])) * g,
-            "vi": draw(st.integers(0, n - 1)), "num": draw(st.sampled_from(["float", "npfloat"]))}
+            "vi": draw(st.integers(0, n - 1)), "num": draw(st.sampled_from(["float", "npfloat"])),
+            "history": draw(st.integers(0, 3)) == 0}
 
 
-def build_polyline(case):
+def build_polyline(case, use=None):
+    """``use``: object history - the curve is first built with its control points in reverse order, handed to
+    ``use`` (a projection / intersection), and only then given its control points through the public setter."""
     num = case["num"]
     U = [lib.conv_knot(u, num) for u in case["U"]]
     P = lib.conv_points(case["P"], num)
-    curve = lib.Curve(U, P)
-    ref = State([oracle.frac(u) for u in U], 1, [tuple(oracle.frac(x) for x in pt) for pt in P], None, False)
+    wl = None if case.get("w") is None else [lib.conv_val(x, num) for x in case["w"]]
+    if use is not None:
+        curve = lib.Curve(U, lib.conv_points([[c + 1 for c in pt] for pt in case["P"][::-1]], num), wl)
+        try:
+            use(curve)
+        except Exception as exc:
+            if not lib.from_library(exc):
+                raise
+        curve.ctrlpoints = P
+    else:
+        curve = lib.Curve(U, P, wl)
+    ref = State([oracle.frac(u) for u in U], 1, [tuple(oracle.frac(x) for x in pt) for pt in P],
+                None if wl is None else [oracle.frac(x) for x in wl], False)
     return curve, ref
 
 
 def segments_of(ref):
     bk = oracle.breaks(ref.U)
+    if ref.w is not None:
+        # rational polyline (simple interior knots): the same straight segments between consecutive control points,
+        # run through with a non-affine parametrisation
+        return [(bk[i], bk[i + 1], ref.P[i], ref.P[i + 1]) for i in range(len(bk) - 1)]
     segs = []
     for lo, hi in zip(bk[:-1], bk[1:]):
         A = oracle.ceval(ref, lo)
@@ -153,7 +171,14 @@ def check_common(out, klass, ts, ref, q, snap, curve):
 
 
 def check_polyline(case, out):
-    curve, ref = build_polyline(case)
+    from compmec.nurbs.advanced import Projection
+    use = None
+    if case.get("history"):
+        # the object was used for a projection while it still had other control points
+        out.cls("object-history")
+        q0 = np.array([float(x) for x in case["q"]])
+        use = lambda c: Projection.point_on_curve(q0, c)  # noqa: E731
+    curve, ref = build_polyline(case, use)
     segs = segments_of(ref)
     dim = ref.dim
     qkind = case["qkind"]
